@@ -194,6 +194,20 @@ def replay(rec, ctx):
     got1 = [float(np.asarray(de1[z])[2]) / n_el for z in range(Z + 1)]
     if not core.close(got1, got, rtol=1e-7, atol=1e-9):
         bad("from_elementdensity[Function1D]:differs-from-scalar-call", f"{got1} vs {got}")
+    # the element density is a scale only (IonBalance.tla: ElementPerElectron), also with far more atoms than electrons
+    for num, den in rec.get("eldens", []):
+        n_s = ne * num / den
+        tagd = f"[element density {num}/{den} n_e]"
+        import warnings
+        with warnings.catch_warnings():
+            warnings.simplefilter("ignore")
+            ds = IB.from_elementdensity(ad, el, n_s, ne, te, **donor)
+            gs = [float(np.asarray(ds[z]).ravel()[0]) / n_s for z in range(Z + 1)]
+            check_fractions(f"from_elementdensity[scalar]{tagd}", gs)
+            da = IB.from_elementdensity(ad, el, np.array([n_s, n_el]), np.array([ne, ne]), np.array([te, te]), **(dict(donor, tcx_donor_n=np.array([nd, nd])) if dP else {}))
+            ga = [float(np.asarray(da[z])[0]) / n_s for z in range(Z + 1)]
+            if not core.close(ga, gs, rtol=1e-7, atol=1e-9):
+                bad(f"from_elementdensity[ndarray]{tagd}:differs-from-scalar-call", f"{ga} vs {gs}")
     # ---- neutrality matching: other species given, this element fills up the electron density
     oel = E.helium if Z != 2 else E.lithium
     other = IB.from_elementdensity(ad, oel, 1.0e18, ne, te)
